@@ -96,7 +96,11 @@ def run_case(case):
         elif o2[0] == "ok":
             r2 = o2[1]
             if r2 is entries.ABSENT or not oracle.equal(_debool(r1), _debool(r2)):
-                fails.append((f"reparse-differs/{shape}", dict(det, second=codec.encode(r2))))
+                if r2 is not entries.ABSENT and exact_member_changed(spec, r1, r2):
+                    # a value that has exactly the type of a union argument must pass unchanged
+                    fails.append((f"reparse-differs/union-exact-member-changed/{shape}", dict(det, second=codec.encode(r2), exact_member=True)))
+                else:
+                    fails.append((f"reparse-differs/{shape}", dict(det, second=codec.encode(r2), exact_member=False)))
         return {"status": "ok", "fails": fails, "changed": changed}
     finally:
         dspec.cleanup()
@@ -113,6 +117,50 @@ def _debool(x):
     if type(x) is dict:
         return {_debool(k): _debool(v) for k, v in x.items()}
     return x
+
+
+def _member_classes(spec):
+    out = []
+    for a in (spec["a"] if spec["k"] in ("union",) else [spec["a"], {"k": "leaf", "o": "none"}]):
+        if a["k"] == "leaf":
+            out.append(tspec.ORIGINS[a["o"]])
+        elif a["k"] == "enum":
+            out.append(codec.ENUMS[a["e"]])
+    return out
+
+
+def exact_member_changed(spec, r1, r2, depth=0):
+    """is there a union node at which the first output has exactly the type of a plain argument and
+    nevertheless changed on re-parse?  (walks spec, r1 and r2 in parallel)"""
+    if depth > 6:
+        return False
+    k = spec["k"]
+    try:
+        if k in ("union", "opt"):
+            if type(r1) in _member_classes(spec) and not oracle.equal(_debool(r1), _debool(r2)):
+                return True
+            return False
+        if type(r1) is not type(r2):
+            return False
+        if k in ("list", "tuplev") and len(r1) == len(r2):
+            return any(exact_member_changed(spec["a"], a, b, depth + 1) for a, b in zip(r1, r2))
+        if k == "tuple" and len(r1) == len(r2) == len(spec["a"]):
+            return any(exact_member_changed(s_, a, b, depth + 1) for s_, a, b in zip(spec["a"], r1, r2))
+        if k == "dict" and list(r1) == list(r2):
+            return any(exact_member_changed(spec["val"], r1[x], r2[x], depth + 1) for x in r1)
+    except Exception:
+        return False
+    return False
+
+
+def _nonfinite(v):
+    import decimal
+    import math
+    if isinstance(v, float):
+        return not math.isfinite(v)
+    if isinstance(v, decimal.Decimal):
+        return not v.is_finite()
+    return False
 
 
 def diagnose(spec, r, depth=0):
@@ -140,12 +188,18 @@ def diagnose(spec, r, depth=0):
                     continue
                 if name in spec["lax"] and o not in EXACT:
                     continue
+                if _nonfinite(cur):
+                    continue   # best effort cannot repair NaN / infinity: unspecified
                 if constraints.holds(name, cons[name], cur) is False:
-                    if name in spec["lax"]:
+                    later = [x for x in constraints.ORDER[constraints.ORDER.index(name) + 1:] if x in spec["lax"] and x in cons]
+                    if later:
+                        # validators run once, in the declared order: a later lax transformation broke what was checked earlier
+                        out.append((f"lax-later-transform-breaks-earlier-constraint/{o}/{name}/after:{'+'.join(later)}",
+                                    {"node": spec, "constraint": name, "later_lax": later}))
+                    elif name in spec["lax"]:
                         out.append((f"lax-output-violates-strict-form/{o}/{name}", {"node": spec, "constraint": name}))
                     else:
-                        out.append((f"lax-output-violates-other-constraint/{o}/{name}/lax:{'+'.join(sorted(spec['lax']))}",
-                                    {"node": spec, "constraint": name}))
+                        out.append((f"strict-constraint-violated-next-to-lax/{o}/{name}", {"node": spec, "constraint": name}))
                     return out
                 # no padding of decimal places here: the strict form is evaluated on the output value itself
         return out
@@ -250,8 +304,12 @@ def lax_cases(draw):
             c[name] = True
         else:
             c[name] = draw(st.integers(0 if name == "length" else 1, 3))
-        el = st.one_of(st.integers(-2, 2), st.sampled_from(["a", "1", True, None, {"t": "float", "v": "1.0"}, {"t": "list", "v": [1]}]))
-        vals = st.tuples(st.lists(el, max_size=6), st.sampled_from(["list", "tuple"])).map(lambda t: {"t": t[1], "v": t[0]})
+        el = st.one_of(st.integers(-2, 2), st.sampled_from(["a", "1", True, None, {"t": "float", "v": "1.0"}, {"t": "list", "v": [1]},
+                                                           {"t": "list", "v": [1, 2]}, {"t": "dict", "v": [["id", 1]]}, {"t": "tuple", "v": [1]},
+                                                           {"t": "set", "v": [1]}, {"t": "float", "v": "nan"}]))
+        # a small pool sampled with repetition, so that duplicates (also of unhashable elements) are the rule
+        pool = draw(st.lists(el, min_size=1, max_size=3))
+        vals = st.tuples(st.lists(st.sampled_from(pool), max_size=6), st.sampled_from(["list", "tuple"])).map(lambda t: {"t": t[1], "v": t[0]})
     lax = [name]
     if "decimal_places" in c and name != "decimal_places" and draw(st.booleans()):
         lax.append("decimal_places")
